@@ -461,7 +461,9 @@ fn api_cas_guard(by_value: bool, pattern: usize) {
         // (nobody can free it and re-use its address) until the exchange has been decided
         let m = model::mon();
         if model::w(w_st).count > 0 {
-            vassert!(m.slot_cas[0] > model::w(w_st).last, "cas_keeps_the_guard_passed_as_current_alive_until_the_exchange");
+            // (its debt is cleared only after the exchange: by the writer's own debt walk when the
+            // exchange succeeded, or by the guard's drop at the end of the call)
+            vassert!(m.slot_pay[0] > model::w(w_st).last, "cas_keeps_the_guard_passed_as_current_alive_until_the_exchange");
         }
         r
     } else {
